@@ -451,6 +451,18 @@ def check_block(run, f, k, rule='R9.block', tc_inline_extend=False, signed=True)
         return
     tab, pv = k.tab, k.pivot_var
     has_r = k.has_r
+    # the pivot row may only be overwritten after every later anticommuting row has been multiplied by it
+    row_loops = [st for st, ctx in walk(f.node) if isinstance(st, ast.For) and any(
+        isinstance(s2, ast.Assign) and isinstance(s2.targets[0], ast.Subscript) and isinstance(s2.targets[0].value, ast.Name)
+        and s2.targets[0].value.id == tab and isinstance(s2.value, ast.BinOp) for s2 in ast.walk(st))]
+    inside = [lp for lp in row_loops if lp in k.replace_ctx.loops and isinstance(lp.target, ast.Name) and lp.target.id != 'k'
+              and any(isinstance(n, ast.Call) and norm(n.func) == 'acq' for n in ast.walk(lp))
+              and not any(isinstance(s3, ast.For) and s3 is not lp and any(x is k.replace_stmt for x in ast.walk(s3)) for s3 in ast.walk(lp))]
+    inner_most = [lp for lp in inside if k.replace_ctx.loops and k.replace_ctx.loops[-1] is lp]
+    if inner_most:
+        run.violation(rule.replace('.block', '.order'), f, k.replace_stmt, 'the pivot row %s[%s] is overwritten by the observable inside the row scan: rows scanned later are then '
+                      'multiplied by the observable instead of the old pivot row and keep anticommuting with the new stabilizer' % (tab, pv))
+        return
     uses_extend = any(isinstance(n, ast.Name) and n.id == 'extend' for st in k.block for n in ast.walk(st))
     ncases = 0
     try:
@@ -610,6 +622,33 @@ def check_flag_resets(run, f, rule='R9.reset'):
                 deeper = len(ctx.loops) > ctx.loops.index(L) + 1
                 if const_like and deeper:
                     latch_sets.setdefault(t.id, []).append(st)
+        # per-item accumulators: updated from their own value inside an inner loop, read in the outer loop, not returned
+        from ..names import return_names
+        carried = set(x for x in return_names(f) if x)
+        acc_sets = {}
+        for st, ctx in stmts:
+            if L in ctx.loops and len(ctx.loops) > ctx.loops.index(L) + 1 and isinstance(st, ast.Assign):
+                for t, v in assigned_pairs(st):
+                    if isinstance(t, ast.Name) and not isinstance(v, tuple) and any(isinstance(x, ast.Name) and x.id == t.id for x in ast.walk(v)):
+                        acc_sets.setdefault(t.id, []).append(st)
+        for v, sets in sorted(acc_sets.items()):
+            if v in carried or v in f.params:
+                continue
+            resets = []
+            for st, ctx in stmts:
+                if ctx.loops and ctx.loops[-1] is L and not [c for c in ctx.conds if getattr(c[0], 'lineno', 0) > L.lineno]:
+                    if isinstance(st, ast.Assign):
+                        for t, val in assigned_pairs(st):
+                            if isinstance(t, ast.Name) and t.id == v and not isinstance(val, tuple) and not any(
+                                    isinstance(x, ast.Name) and x.id == v for x in ast.walk(val)):
+                                resets.append(st)
+                            elif isinstance(t, ast.Subscript) and isinstance(t.value, ast.Name) and t.value.id == v and isinstance(val, ast.Constant):
+                                resets.append(st)
+            first = min(s2.lineno for s2 in sets)
+            n += 1
+            run.check(any(r.lineno < first for r in resets), rule, f, '%s inside `for %s`' % (v, norm(L.target)),
+                      'the accumulator `%s` is built up inside an inner loop for one item of the loop over `%s` and is not part of the result, but it is '
+                      'not cleared at the start of every iteration: what was accumulated for one observable leaks into the next' % (v, norm(L.target)))
         for v, sets in sorted(latch_sets.items()):
             if v in selfref:
                 continue
